@@ -110,12 +110,12 @@ def _fmt(v):
 # reference model
 
 class _ShareM(object):
-    def __init__(self, init):
+    def __init__(self, init, unstamped=False):
         self.data = {}
         for k, v in init:
             if k not in self.data:
                 self.data[k] = list(v) if isinstance(v, list) else v
-        self.stamp = 0.0        # created at store.stamp 0.0
+        self.stamp = None if unstamped else 0.0        # created (stamped) at store.stamp 0.0 unless set by an unstamped write
         self.upd_event = -1     # event index of the last stamped write
         self.deck = []
 
@@ -194,7 +194,7 @@ class Model(object):
 
     def __init__(self, case):
         self.case = case
-        self.shares = [_ShareM(s.get("init") or []) for s in case["shares"]]
+        self.shares = [_ShareM(s.get("init") or [], s.get("unstamped")) for s in case["shares"]]
         self.logs = [_LogM(spec, i) for i, spec in enumerate(case["logs"])]
         self.event = 0
         self.runs = 0
@@ -298,7 +298,7 @@ class Model(object):
                 self._emit(lm, t)
             # variant 'stamp': loggee.stamp > time of last record (tree as found)
             a = lm.alt["stamp"]
-            if first or any(shares[si].stamp > a["time"] for _, si, _ in lm.loggees):
+            if first or any(shares[si].stamp is not None and shares[si].stamp > a["time"] for _, si, _ in lm.loggees):
                 a["records"].append(line)
                 a["time"] = t
             # variant 'seen': loggee.stamp differs from the stamp it had at the last record
@@ -394,7 +394,7 @@ def _apply(op, shares):
         shares[op[1]].push(odict(sorted(op[2].items())))
 
 
-def _init_share(sh, init):
+def _init_share(sh, init, unstamped=False):
     from ioflo.aid.odicting import odict
     pairs = []
     seen = set()
@@ -403,7 +403,9 @@ def _init_share(sh, init):
             continue
         seen.add(k)
         pairs.append((k, list(v) if isinstance(v, list) else v))
-    if pairs:
+    if pairs and unstamped:
+        sh.change(odict(pairs))      # unstamped write: the share keeps stamp None
+    elif pairs:
         sh.create(odict(pairs))
 
 
@@ -444,7 +446,7 @@ def run_direct(case, ctls, root, model_logs):
     shares = []
     for s in case["shares"]:
         sh = store.create(s["path"])
-        _init_share(sh, s.get("init"))
+        _init_share(sh, s.get("init"), s.get("unstamped"))
         shares.append(sh)
     logs = []
     for i, spec in enumerate(case["logs"]):
@@ -560,7 +562,7 @@ def run_flo(case, ctls, root):
     shares = []
     for s in case["shares"]:
         sh = store.create(s["path"])
-        _init_share(sh, s.get("init"))
+        _init_share(sh, s.get("init"), s.get("unstamped"))
         shares.append(sh)
     logger = [t for t in house.taskers if t.name == "lg"][0]
     _FLO["ticks"] = case["ticks"]
@@ -705,9 +707,11 @@ def case_strategy(family):
     @st.composite
     def build(draw):
         nnormal = draw(st.integers(1, 2))
-        shares = [{"path": "p.a", "init": [["x", draw(vals)], ["y", draw(vals)]]}]
+        # a share may start UNSTAMPED (its fields set by an unstamped write, as a share inited by a script is): its
+        # first stamped update may then carry the stamp 0.0
+        shares = [{"path": "p.a", "init": [["x", draw(vals)], ["y", draw(vals)]], "unstamped": draw(st.sampled_from([False, False, True]))}]
         if nnormal == 2:
-            shares.append({"path": "p.b", "init": [["u", draw(vals)]]})
+            shares.append({"path": "p.b", "init": [["u", draw(vals)]], "unstamped": draw(st.sampled_from([False, False, True]))})
         fieldsof = {0: ["x", "y", "z"], 1: ["u", "w"]}
         rules = draw(st.one_of(st.just(list(ALLRULES)),
                                st.lists(st.sampled_from(ALLRULES), min_size=1, max_size=3, unique=True)))
